@@ -253,7 +253,7 @@ theorem predictor_roundtrip_samples8 (predictor colors columns : Nat) (m : List 
     (by
       rcases hp with h | h
       · exact Or.inl ⟨h, Or.inl rfl⟩
-      · exact Or.inr ⟨h, by decide⟩)
+      · exact Or.inr ⟨h, Or.inr (Or.inr (Or.inr (Or.inl rfl)))⟩)
     (by show columns < _; omega) (by show colors * 8 < _; omega) (by simpa using hfit)
     (by intro r hr; rw [hm r hr]; unfold PredSpec.rowBytes; simp only; omega)
     hne
@@ -273,7 +273,7 @@ theorem predictor_roundtrip_samples16 (predictor colors columns : Nat) (m : List
     (by
       rcases hp with h | h
       · exact Or.inl ⟨h, Or.inr rfl⟩
-      · exact Or.inr ⟨h, by decide⟩)
+      · exact Or.inr ⟨h, Or.inr (Or.inr (Or.inr (Or.inr rfl)))⟩)
     (by show columns < _; omega) (by show colors * 16 < _; omega) (by simpa using hfit)
     (by
       intro r hr
